@@ -71,11 +71,11 @@ MANIFEST_TEXT["C03"] = dict(
 MUTATIONS = ["unknown_short", "unknown_long", "ambiguous_or_unknown_prefix", "drop_mandatory", "missing_value", "duplicate_use",
              "bad_value", "check_violation", "excluded_after_excluder", "missing_required", "all_of_partial", "any_of_two",
              "one_of_none", "one_of_two", "differ_equal", "disjoint_common", "unique_duplicate", "fixed_overflow", "tuple_short",
-             "bitset_range", "deprecated_use", "too_few_values"]
+             "bitset_range", "deprecated_use", "too_few_values", "stray_value"]
 PROPS["C02"] = dict(
     units=[dict(harness="argh", mode="break", quick=dict(cases=40000), thorough=dict(cases=300000, shards=16))],
-    rule="a rule-obeying line of a rule-rich configuration (as C03) + exactly one rule-breaking mutation out of 22 kinds applied on "
-         "the abstract level (unknown short/long key, ambiguous or unknown prefix, dropped mandatory argument, missing value, use "
+    rule="a rule-obeying line of a rule-rich configuration (as C03) + exactly one rule-breaking mutation out of 23 kinds applied on "
+         "the abstract level (unknown short/long key, a stray value word without key, ambiguous or unknown prefix, dropped mandatory argument, missing value, use "
          "beyond the cardinality, too few values, non-convertible value, violation of each check type incl. list elements, excluded "
          "argument after its excluder, missing required argument, all-of partial, any-of two, one-of none/two, differ equal, "
          "disjoint common element, duplicate with unique=error, array/tuple overflow, short tuple, bitset position out of range, "
@@ -162,7 +162,8 @@ PROPS["C08"] = dict(
     require_classes=dict(all=["groups.both_accept", "groups.both_reject", "groups.members_1", "groups.members_2", "groups.members_4",
                               "groups.enforced.missing_required", "groups.enforced.all_of_partial", "groups.enforced.one_of_none",
                               "groups.enforced.drop_mandatory", "groups.enforced.duplicate_use", "groups.enforced.check_violation",
-                              "groups.enforced.ambiguous_or_unknown_prefix", "groups.enforced.excluded_after_excluder"]),
+                              "groups.enforced.ambiguous_or_unknown_prefix", "groups.enforced.excluded_after_excluder",
+                              "groups.enforced.stray_value"]),
     assumptions=DOMAIN_ASSUMPTIONS + [
         "--endvalues is an argument of ONE handler (a second member defining it is refused), so hfEndValues is left out",
         "value mode 'command' and positional arguments are not generated (free values have no key)",
